@@ -429,27 +429,98 @@ theorem scrape_parse_never_raises (c : Cfg) (hc : ParamsVE c) :
     | some i => exact ⟨i :: r, by simp [hr], by simp; omega⟩
 
 /-- **C11, joining.**  Relative to the stdlib join raising only `ValueError`:
-`wpull.url.urljoin` raises only `ValueError`, and `urljoin_safe` never raises. -/
-theorem urljoin_only_valueerror (stdJoin : Str → Str → Except PyExc Str)
-    (hj : ∀ b u, OnlyVE (stdJoin b u)) (base url : Str) : OnlyVE (urljoin stdJoin base url) := by
+`wpull.url.urljoin` raises only `ValueError`, and `urljoin_safe` never raises
+(for both values of `allow_fragments`). -/
+theorem urljoin_only_valueerror (stdJoin : Bool → Str → Str → Except PyExc Str)
+    (hj : ∀ af b u, OnlyVE (stdJoin af b u)) (af : Bool) (base url : Str) :
+    OnlyVE (urljoin stdJoin af base url) := by
   intro e he
   unfold urljoin at he
   split at he
-  · simp only at he
-    split at he
-    · exact hj _ _ _ he
-    · exact hj _ _ _ he
-  · exact hj _ _ _ he
+  · cases he
+  · split at he
+    · simp only at he
+      split at he
+      · exact hj _ _ _ _ he
+      · exact hj _ _ _ _ he
+    · exact hj _ _ _ _ he
 
-theorem urljoin_safe_only_valueerror (stdJoin : Str → Str → Except PyExc Str)
-    (hj : ∀ b u, OnlyVE (stdJoin b u)) (base url : Str) :
-    ∃ r, urljoinSafe stdJoin base url = .ok r := by
+theorem urljoin_safe_only_valueerror (stdJoin : Bool → Str → Str → Except PyExc Str)
+    (hj : ∀ af b u, OnlyVE (stdJoin af b u)) (af : Bool) (base url : Str) :
+    ∃ r, urljoinSafe stdJoin af base url = .ok r := by
   unfold urljoinSafe
   split
   · exact ⟨_, rfl⟩
   · rename_i e he
-    have := urljoin_only_valueerror stdJoin hj base url e he
+    have := urljoin_only_valueerror stdJoin hj af base url e he
     simp [this]
+
+/-- a fragment-only reference joined without fragment parsing stays in the base document -/
+theorem urljoin_fragment_only (stdJoin : Bool → Str → Str → Except PyExc Str) (base frag : Str) :
+    urljoin stdJoin false base (35 :: frag) = .ok ((partition1 35 base).1 ++ 35 :: frag) := by
+  unfold urljoin
+  simp [startsWith]
+
+theorem pyOr_some (x : Option Str) (d : Str) : (pyOr x (some d)).isSome = true := by
+  unfold pyOr
+  cases x with
+  | none => rfl
+  | some r => by_cases h : r.isEmpty = true <;> simp [h]
+
+/-- **C11, HTML scraper glue (base selection).**  The base that `HTMLScraper._process_elements` hands
+to `urljoin_safe` for an element's links is never `None`: the document base or, when it is missing or
+its join failed, the page URL; for `<object>/<applet codebase=…>` the joined code base or, when that
+join failed, the page URL. -/
+theorem elementBase_some (stdJoin : Bool → Str → Str → Except PyExc Str) (page : Str) (doc : Option Str)
+    (codebase : Option Str) (b : Option Str) (h : elementBase stdJoin page doc codebase = .ok b) :
+    b.isSome = true := by
+  unfold elementBase at h
+  simp only at h
+  split at h
+  · cases h; exact pyOr_some _ _
+  · split at h
+    · cases h; exact pyOr_some _ _
+    · split at h
+      · cases h
+      · cases h; exact pyOr_some _ _
+
+/-- **C11, joining a scraped link against its page.**  Relative to the stdlib join raising only
+`ValueError`: base selection plus join of one scraped link never raises, for every page URL, document
+base, `codebase` and link text (scheme-relative, fragment-only, empty, unparseable …). -/
+theorem scrapeLink_never_raises (stdJoin : Bool → Str → Str → Except PyExc Str)
+    (hj : ∀ af b u, OnlyVE (stdJoin af b u)) (page : Str) (doc codebase : Option Str) (link : Str) :
+    ∃ r, scrapeLink stdJoin page doc codebase link = .ok r := by
+  unfold scrapeLink
+  have hb : ∃ b, elementBase stdJoin page doc codebase = .ok b := by
+    unfold elementBase
+    simp only
+    split
+    · exact ⟨_, rfl⟩
+    · split
+      · exact ⟨_, rfl⟩
+      · rename_i cb _
+        obtain ⟨r, hr⟩ := urljoin_safe_only_valueerror stdJoin hj true page cb
+        rw [hr]; exact ⟨_, rfl⟩
+  obtain ⟨b, hb⟩ := hb
+  rw [hb]
+  have hsome := elementBase_some stdJoin page doc codebase b hb
+  cases b with
+  | none => cases hsome
+  | some base =>
+    simp only [joinOnBase]
+    exact urljoin_safe_only_valueerror stdJoin hj false base link
+
+theorem docBase_never_raises (stdJoin : Bool → Str → Str → Except PyExc Str)
+    (hj : ∀ af b u, OnlyVE (stdJoin af b u)) (page : Str) :
+    ∀ (hrefs : List Str) (cur : Option Str), ∃ r, docBase stdJoin page hrefs cur = .ok r
+  | [], cur => ⟨cur, rfl⟩
+  | href :: rest, cur => by
+    unfold docBase
+    split
+    · exact docBase_never_raises stdJoin hj page rest cur
+    · obtain ⟨r, hr⟩ := urljoin_safe_only_valueerror stdJoin hj true page href
+      rw [hr]
+      exact docBase_never_raises stdJoin hj page rest r
 
 /-- **C11, accessors.**  Every documented attribute of a returned result can be
 read: `url`, `query_map`, `hostname_with_port` and `split_path` return (the
@@ -523,6 +594,10 @@ example : ((parse cfg0 [109, 97, 105, 108, 116, 111, 58, 120]).bind URLInfo.quer
 example : parseOrLog cfg0 [58] = .ok none := by decide
 -- a junk link between two good ones is skipped: `["h.x", ":", "mailto:x"]` keeps two results
 example : (scrapeParse cfg0 [[104, 46, 120], [58], [109, 97, 105, 108, 116, 111, 58, 120]]).map List.length = .ok 2 := by decide
-example : urljoinSafe (fun _ _ => .error .ValueError) [104] [47, 47, 120] = .ok none := by decide
+example : urljoinSafe (fun _ _ _ => .error .ValueError) true [104] [47, 47, 120] = .ok none := by decide
+-- the seeded defect on the model: a `None` base and a scheme-relative link raise AttributeError …
+example : joinOnBase (fun _ _ _ => .error .ValueError) none [47, 47, 104, 47] = .error .AttributeError := by decide
+-- … which base selection rules out: an unjoinable codebase falls back to the page URL `h:`
+example : elementBase (fun _ _ _ => .error .ValueError) [104, 58] none (some [91]) = .ok (some [104, 58]) := by decide
 
 end Wpull.Url
